@@ -22,8 +22,10 @@ for p in sorted(glob.glob(ROOT + "/seeded/*/meta.json")):
         col = "from the first version"
     needs = m.get("needs", "")[:170].replace("|", "/").replace("\n", " ")
     rows.append("| `%s` | %s… | %s | %s |" % (sid, needs, ", ".join(sorted(set(caught + extra))), col))
-head = ("%d changes; %d were caught by the first version of the checks, %d only after the checks were strengthened\n(none is missed now):\n\n"
-        "| seeded change | needs (from its author) | caught by | first version? |\n|---|---|---|---|\n" % (len(rows), first, later))
+slow = [r for r in rows if "(thorough tier)" in r and not re.search(r"\| (C\d\d(, )?)+ \|", r)]
+head = ("%d changes; %d were caught by the first version of the checks, %d only after the checks were strengthened\n(none is missed now; %d of them only by the thorough tier, "
+        "because it needs minutes of wall-clock time):\n\n"
+        "| seeded change | needs (from its author) | caught by | first version? |\n|---|---|---|---|\n" % (len(rows), first, later, len(slow)))
 table = "<!-- seeded-table-begin -->\n" + head + "\n".join(rows) + "\n<!-- seeded-table-end -->"
 d = open(ROOT + "/DESIGN.md").read()
 if "<!-- seeded-table-begin -->" in d:
